@@ -11,7 +11,7 @@ interfaces, tuples, div (allow / and %), big (literals near INT_MIN/INT_MAX), pa
 INT, BOOL, STR = 'int', 'bool', 'Str'
 
 DEFAULT_OPTS = dict(loops=True, closures=True, vec=True, strings=True, generics=True, interfaces=True,
-                    tuples=True, div=True, big=False, panics=True, nfun=5, depth=3, two_modules=False)
+                    tuples=True, div=True, big=False, panics=True, nfun=5, depth=3, two_modules=False, avoid_known_iv=False)
 
 
 class Ctx:
@@ -298,8 +298,23 @@ class ProgGen:
             stride = 1 if stride > 0 else -1
         mult = r.pick([1, 2, 3, -2, 4])
         off = r.pick([0, 1, -3, 7])
-        kind = r.below(6)
+        kind = r.below(7)
         i, acc, n = 'i', 'acc', 'n'
+        if self.o['avoid_known_iv'] and kind == 0 and (op != '<' or mult <= 0):
+            kind = 2          # stay out of the open finding C02-iv-elimination-guard
+        if kind == 6:
+            # tail call that permutes / cross-feeds its parameters (needs simultaneous update)
+            self.features.add('loop-permute')
+            step = '%s %s %d' % (i, '+' if stride > 0 else '-', abs(stride))
+            perm = r.pick(['%s, acc, n + 0' % step + '', None])
+            upd_acc = r.pick(['n', 'i', 'acc + i', 'n - acc'])
+            body = 'if %s %s %s { Main.%s(%s, %s, %s) } else { acc * 7 + i }' % (
+                i, op, n, name, step, upd_acc, n)
+            # second function with a genuine swap of two accumulators
+            text = ('  function %s(i: int, acc: int, n: int): int = Main.%sw(i, acc, 1, n)\n'
+                    '  function %sw(i: int, a: int, b: int, n: int): int = if %s %s %s { Main.%sw(%s, b, %s, n) } else { a * 31 + b }'
+                    % (name, name, name, i, op, n, name, step, r.pick(['a', 'a', 'a + i', 'a + 1'])))
+            return text, name, op, stride
         step = '%s %s %d' % (i, '+' if stride > 0 else '-', abs(stride))
         if kind == 0:      # sum of a derived induction variable
             upd = '%s + (%s * %d + %d)' % (acc, i, mult, off)
